@@ -197,6 +197,22 @@ pub fn check_default(kind: Kind, clock: Clock, spec: &[i128]) -> Result<(), Stri
                 _ => (format!("{y} MON DD HH24:MI:SS"), format!("-{} Mar 05 10:20:30", a(2)), None),
             }
         }
+        // 21: a fraction that rounds up at 23:59:59 under a picture that leaves the year and / or the
+        //     month to the clock: the defaults apply first, then the carry moves into the next day
+        //     (shape, month, day)
+        21 => {
+            let (m, d) = (a(2), a(3));
+            let (pic, text, base) = match a(1) {
+                0 => ("MM-DD HH24:MI:SS.FF7".to_string(), format!("{m:02}-{d:02} 23:59:59.9999996"), date(cy, m, d)),
+                1 => ("DD HH24:MI:SS.FF9".to_string(), format!("{d} 23:59:59.9999996"), date(cy, cm, d)),
+                2 => ("HH24:MI:SS.FF8".to_string(), "23:59:59.99999951".to_string(), date(cy, cm, 1)),
+                _ => ("YYYY DD HH24:MI:SS.FF".to_string(), format!("{:04} {d} 23:59:59.9999995", cy), date(cy, cm, d)),
+            };
+            // the day after `base`, if there is one inside the range
+            let next = base.and_then(|n| if (n as i64) < c.last as i64 { Some(n + 1) } else { None });
+            let want = if kind == Kind::Ts { next.map(|n| n * US_PER_DAY) } else { None };
+            (pic, text, want)
+        }
         k => return Err(format!("unknown default spec {k}")),
     };
     // time-bearing specs make no sense for the plain Date type: an error is required there
@@ -464,6 +480,10 @@ fn specs_for(r: &Row, idx: u64, seed: u64, thorough: bool) -> Vec<Vec<i128>> {
     for (n, val) in [(1i128, 5i128), (1, 0), (3, 123), (3, 7), (3, 45), (2, 5), (1, sm.below(10) as i128), (3, sm.below(1000) as i128)] {
         v.push(vec![18, n, val, (val + idx as i128) % 2]);
     }
+    // a carrying fraction under pictures that take year / month from the clock
+    for (shape, m, d) in [(0i128, 12i128, 31i128), (0, 2, 28), (0, 2, 29), (1, 0, len), (1, 0, 28), (2, 0, 0), (3, 0, len), (0, 1 + sm.below(12) as i128, 1 + sm.below(28) as i128)] {
+        v.push(vec![21, shape, m, d]);
+    }
     // a '-' on a short year
     for (n, val) in [(1i128, 5i128), (2, 5), (2, 24), (3, 123), (1 + (idx % 3) as i128, sm.below(10) as i128 + 1)] {
         v.push(vec![20, n, val, ((idx as i128 + n + val) % 4)]);
@@ -524,7 +544,7 @@ pub fn run(ctx: &Ctx) -> (Stats, Report) {
                         _ => &[Kind::Ora],
                     };
                     // time-bearing specs always go through Timestamp too
-                    let extra = matches!(spec[0], 9 | 10 | 11 | 12 | 14 | 19) || (spec[0] == 20 && spec[3] == 3);
+                    let extra = matches!(spec[0], 9 | 10 | 11 | 12 | 14 | 19 | 21) || (spec[0] == 20 && spec[3] == 3);
                     for &kind in kinds.iter().chain(if extra { [Kind::Ts].iter() } else { [].iter() }) {
                         st.evaluations += 1;
                         if special {
@@ -691,7 +711,7 @@ pub fn run(ctx: &Ctx) -> (Stats, Report) {
     let _ = Time::ZERO;
 
     let rep = Report {
-        rule: format!("The injected clock (cargo feature verif-hooks, thread-local) ranges over ALL 3,652,059 possible current local dates x {} time(s) of day (thorough: midnight, 00:00:00.5, 12:34:56.789012, 23:59:59.999999 under every date; quick: one of those five classes incl. 00:00:00.000001 per date, rotating with the date). Under each clock: partial pictures \"\", DD (1, 28..31, month length +-), MM, MM-DD, MON DD, YYYY, YYYY-DD, DDD (incl. 365/366), Y / YY / YYY with value classes (all values for Y/YY in thorough) alone and with month/day, with a leading '+' and with a '-' (which denotes no date), HH24:MI, HH:MI AM with empty text, SS, .FF, DD HH:MI PM, an omission grid (12 time-part pictures in several field orders, meridian before or after the 12-hour field, text ending after every token; also swept exhaustively under 7 clocks), rotated over Date / Timestamp / OracleDate; Date::now, Timestamp::now, OracleDate::now, Timestamp::try_from(Time), OracleDate::try_from(Time); the same constructors with the clock inside a leap second (second 59 + 1,000,000..1,999,999 us: an error or an in-range value within those two seconds). Every parse goes through T::parse, a fresh Formatter and a long-lived Formatter (compiled once per thread and picture, so it has parsed under many other current dates before). Once per run, before any worker thread starts, the five clock readers are also called WITHOUT the hook under a process time zone 13 hours east or west of UTC (whichever makes the local date differ from the UTC date at that moment): they must agree on the local date. Oracle: model defaults (year and month from the clock, day 1, time 0, 12 for an omitted 12-hour field, short years completed with the leading digits of the clock year) validated by the walked calendar (so DD=31 in a 30-day current month, DDD=366 in a common current year, a completed year 0 are errors). Complete pictures (7 shapes x date pool) must give the identical value under 9 different clocks incl. both range ends. Non-trivial = clock at a month end / year end / century-end year / 29 Feb / year < 1000 / year 9999; distinct by enumeration.", tods.len()),
+        rule: format!("The injected clock (cargo feature verif-hooks, thread-local) ranges over ALL 3,652,059 possible current local dates x {} time(s) of day (thorough: midnight, 00:00:00.5, 12:34:56.789012, 23:59:59.999999 under every date; quick: one of those five classes incl. 00:00:00.000001 per date, rotating with the date). Under each clock: partial pictures \"\", DD (1, 28..31, month length +-), MM, MM-DD, MON DD, YYYY, YYYY-DD, DDD (incl. 365/366), Y / YY / YYY with value classes (all values for Y/YY in thorough) alone and with month/day, with a leading '+' and with a '-' (which denotes no date), a fraction carrying out of 23:59:59 under pictures that take year / month from the clock, HH24:MI, HH:MI AM with empty text, SS, .FF, DD HH:MI PM, an omission grid (12 time-part pictures in several field orders, meridian before or after the 12-hour field, text ending after every token; also swept exhaustively under 7 clocks), rotated over Date / Timestamp / OracleDate; Date::now, Timestamp::now, OracleDate::now, Timestamp::try_from(Time), OracleDate::try_from(Time); the same constructors with the clock inside a leap second (second 59 + 1,000,000..1,999,999 us: an error or an in-range value within those two seconds). Every parse goes through T::parse, a fresh Formatter and a long-lived Formatter (compiled once per thread and picture, so it has parsed under many other current dates before). Once per run, before any worker thread starts, the five clock readers are also called WITHOUT the hook under a process time zone 13 hours east or west of UTC (whichever makes the local date differ from the UTC date at that moment): they must agree on the local date. Oracle: model defaults (year and month from the clock, day 1, time 0, 12 for an omitted 12-hour field, short years completed with the leading digits of the clock year) validated by the walked calendar (so DD=31 in a 30-day current month, DDD=366 in a common current year, a completed year 0 are errors). Complete pictures (7 shapes x date pool) must give the identical value under 9 different clocks incl. both range ends. Non-trivial = clock at a month end / year end / century-end year / 29 Feb / year < 1000 / year 9999; distinct by enumeration.", tods.len()),
         assumptions: vec!["the hook only replaces the value of chrono::Local::now().naive_local() at the six places the library reads it; with the feature off the code is the original".into()],
         exhaustive: true,
         extra: Default::default(),
